@@ -78,6 +78,55 @@ def replay_once(binpath, pid, tier, seed, path, extra_env=None, timeout=1800):
     return (not ok), out
 
 
+def minimize_lines(binpath, pid, tier, seed, path, skey, extra_env, budget=120):
+    """ddmin-lite over the lines of a replay file: the first non-comment line (case header) is kept, every other line is a
+    candidate for removal (chunks first, then single lines). A candidate is accepted only if the replay still dies with the same
+    sanitizer key.  Returns the number of lines removed; the file is rewritten in place (original kept as <path>.orig)."""
+    lines = open(path, errors='replace').read().split('\n')
+    while lines and lines[-1] == '':
+        lines.pop()
+    head = [i for i, l in enumerate(lines) if l and not l.startswith('#')][:1]
+    if not head or len(lines) - head[0] < 3:
+        return 0
+    fixed, body = lines[:head[0] + 1], lines[head[0] + 1:]
+    tmp = path + '.min'
+    runs = [0]
+
+    def still_fails(cand):
+        if runs[0] >= budget:
+            return False
+        runs[0] += 1
+        open(tmp, 'w').write('\n'.join(fixed + cand) + '\n')
+        fails, out = replay_once(binpath, pid, tier, seed, tmp, extra_env=extra_env, timeout=300)
+        if not fails:
+            return False
+        sv = sanitizer_verdict(pid, out)
+        return bool(sv and sv[0] == skey)
+    n0 = len(body)
+    chunk = max(1, len(body) // 2)
+    while chunk >= 1 and runs[0] < budget:
+        i = 0
+        progressed = False
+        while i < len(body) and runs[0] < budget:
+            cand = body[:i] + body[i + chunk:]
+            if len(cand) < len(body) and still_fails(cand):
+                body = cand
+                progressed = True
+            else:
+                i += chunk
+        if chunk == 1 and not progressed:
+            break
+        chunk = chunk // 2 if chunk > 1 else (1 if progressed else 0)
+    try:
+        os.remove(tmp)
+    except OSError:
+        pass
+    if len(body) < n0:
+        shutil.copy(path, path + '.orig')
+        open(path, 'w').write('\n'.join(fixed + body) + '\n')
+    return n0 - len(body)
+
+
 def sanitizer_verdict(pid, out):
     """Turn a sanitizer report in a replay's output into (key, verdict); None if there is none."""
     import re
@@ -326,6 +375,15 @@ def run_property(prop, tier, seed, replay=None):
                 sv = sanitizer_verdict(pid, last)
                 if sv:
                     skey, v2 = sv
+            # sanitizer aborts bypass rapidcheck's shrinking: minimise such a replay here (line-wise delta debugging, accepted only
+            # while the replay keeps failing with the same sanitizer key; bounded number of replays)
+            if skey and f.get('class') == 'crash' and s.kind != 'fuzz':
+                try:
+                    removed = minimize_lines(bins[rh], pid, tier, seed, path, skey, xenv)
+                    if removed:
+                        notes.append('crash replay %s minimised: %d line(s) removed while the sanitizer verdict stayed %s' % (os.path.basename(path), removed, skey))
+                except Exception as e:
+                    notes.append('crash replay minimisation skipped: %r' % (e,))
             # make the replay file self-describing
             try:
                 txt = open(path, errors='replace').read()
